@@ -184,7 +184,13 @@ let hist_monitors (steps : pstep list) (truths : string list) (mres : string lis
                optimistic update); without a rotation it only changes from "none" to what the update carries *)
             if d.cur <> p.cur && d.next <> next_of_update st then
               add "next-committee-not-cleared-on-rotation" (Printf.sprintf "%s next=%s update-carries=%s" where (String.sub d.next 0 (min 8 (String.length d.next))) (let x = next_of_update st in String.sub x 0 (min 8 (String.length x))));
-            if d.cur = p.cur && d.next <> p.next && not (p.next = "-" && d.next = next_of_update st) then
+            (* exactly the three cases of C12_committees_step, on roots: untouched; a missing next committee filled from the update;
+               a rotation (new current = old next, next = what the update carries).  The third case also covers a store whose
+               current and next committee have the SAME root - reachable only through the harness's forced applies - where a
+               rotation leaves the current root as it was *)
+            if d.cur = p.cur && d.next <> p.next
+               && not (p.next = "-" && d.next = next_of_update st)
+               && not (p.next = d.cur && d.next = next_of_update st) then
               add "next-committee-changed-without-rotation" where;
             (* history safety (hands_over): a missing next committee may only be filled from an update ATTESTED IN THE STORE'S PERIOD -
                the next committee of an older state is the committee of the store's own period, not the next one *)
